@@ -1608,7 +1608,8 @@ func (t *tScreen) parseXtermMouse(buf *bytes.Buffer, evs *[]Event) (bool, bool) 
 			}
 			state++
 		case 3:
-			btn = int(b[i])
+			// the button code is offset by 32, like the coordinates
+			btn = int(b[i]) - 32
 			state++
 		case 4:
 			x = int(b[i]) - 32 - 1
